@@ -24,7 +24,7 @@ pub fn families() -> Vec<Family> {
             "hostile peer sends malformed bytes to the real AsyncServer; a second healthy connection must still be served",
             c02_live_async_server,
         )
-        .runs(4_000, 200_000)
+        .runs(100_000, 6_000_000)
         .aborts()
         .tokio(),
         Family::new(
@@ -33,7 +33,7 @@ pub fn families() -> Vec<Family> {
             "hostile server answers the real AsyncClient with malformed bytes while calls are in flight; calls fail, process survives",
             c02_live_async_client,
         )
-        .runs(4_000, 200_000)
+        .runs(100_000, 6_000_000)
         .aborts()
         .tokio(),
     ]
